@@ -80,6 +80,8 @@ func writeLayout(root string, cat *Catalogue, L cvLayout) error {
 			d.Size += 7
 		case "at":
 			d.ArtifactType = "application/vnd.example.wrong"
+		case "noat":
+			d.ArtifactType = ""
 		case "annot":
 			d.Annotations = map[string]string{"org.example.k": "stale value"}
 		}
